@@ -362,6 +362,11 @@ fn hist_body(c: &HistCase, ch: &Chooser) -> Outcome {
                 }
             }),
             Op::Next(w) => {
+                // a watcher whose last poll was Pending comes back with a NEW waker (the stream was
+                // handed to another task, or polled once by a select!): only that one has to be woken
+                if parked_at[*w].is_some() {
+                    wakers[*w] = std::sync::Arc::new(CountWaker(std::sync::atomic::AtomicU64::new(0)));
+                }
                 let r = poll_watch_with(watches[*w].as_mut().unwrap(), &wakers[*w]);
                 parked_at[*w] = if r == Ret::Pending { Some(wakers[*w].0.load(std::sync::atomic::Ordering::SeqCst)) } else { None };
                 Ok(r)
@@ -638,7 +643,7 @@ pub fn property(tier: Tier) -> Property {
     let hist = Section::new(
         "histories",
         Config::default(),
-        "cases: every operation sequence of depth 5 (thorough 7) over {set(service in {'', a}, status in 3), clear(service), check(service or a never-set name), watch(service) (<= 2 watches), next(w) = one non-blocking poll of a live watch, drop(w)} (choices cost nothing; one case per first operation; and again one level shallower with every SERVING / NOT_SERVING update made through set_serving::<S>() / set_not_serving::<S>() for NamedService types named '' and 'a'; and again one level shallower with every update / clear available through either of two handles, the reporter and a clone of it), driven through the generated HealthClient wired in-process to health_reporter()'s HealthServer with no runtime; RefHealth is stepped in lock-step on every operation: check == latest (NOT_FOUND when unset/cleared/never set); a watch's reports form an order-preserving subsequence of the statuses set for its registration from the subscription on, Pending only when nothing is unreported (or the latest status equals the one reported last) and the service is still registered, end only after a clear and after the unreported latest status; never a status that was not set; every watch is polled with its own counting waker and a watcher whose last poll was Pending must have been woken by the next clear of its registration or update to a status other than the one it reported last (no lost wake-up). Non-trivial = the sequence polls a watch and contains an update or clear.",
+        "cases: every operation sequence of depth 5 (thorough 7) over {set(service in {'', a}, status in 3), clear(service), check(service or a never-set name), watch(service) (<= 2 watches), next(w) = one non-blocking poll of a live watch, drop(w)} (choices cost nothing; one case per first operation; and again one level shallower with every SERVING / NOT_SERVING update made through set_serving::<S>() / set_not_serving::<S>() for NamedService types named '' and 'a'; and again one level shallower with every update / clear available through either of two handles, the reporter and a clone of it), driven through the generated HealthClient wired in-process to health_reporter()'s HealthServer with no runtime; RefHealth is stepped in lock-step on every operation: check == latest (NOT_FOUND when unset/cleared/never set); a watch's reports form an order-preserving subsequence of the statuses set for its registration from the subscription on, Pending only when nothing is unreported (or the latest status equals the one reported last) and the service is still registered, end only after a clear and after the unreported latest status; never a status that was not set; every watch is polled with its own counting waker (a fresh one whenever its previous poll was Pending: only the latest waker counts) and a watcher whose last poll was Pending must have been woken by the next clear of its registration or update to a status other than the one it reported last (no lost wake-up). Non-trivial = the sequence polls a watch and contains an update or clear.",
         hcases,
         |c: &HistCase| format!("depth={} first={:?} typed_api={} two_handles={}", c.depth, c.first, c.typed, c.two_handles),
         hist_body,
